@@ -11,15 +11,16 @@ THEOREMS = [
     "NakenVerif.Macro.unget_char_is_stream_cons",
     "NakenVerif.Macro.char_stream_of_invocation",
     "NakenVerif.Macro.define_transparent",
-    "NakenVerif.Macro.equ_transparent",
+    "NakenVerif.Macro.equ_transparent_partial",
     "NakenVerif.Macro.macro_transparent",
     "NakenVerif.Macro.hand_expansion_stream",
-    "NakenVerif.Macro.macro_body_is_word_substitution",
+    "NakenVerif.Macro.stored_define_text_is_word_substitution_partial",
     "NakenVerif.Macro.include_transparent",
     "NakenVerif.Macro.repeat_copies",
     "NakenVerif.Macro.tab_in_string_counterexample",
     "NakenVerif.Macro.string_semicolon_counterexample",
     "NakenVerif.Macro.param59_counterexample",
+    "NakenVerif.Macro.define_backslash_counterexample",
 ]
 RULE = ("mexp: sources built from a grammar of definitions (.define/#define with and without parameters, .macro/.endm, "
         ".equ/.def, NAME equ VALUE, .include) and statements that use them (nested calls, arguments that are numbers in "
